@@ -123,3 +123,40 @@ def non_ascii(atoms):
             new = [str(x) + (" 1.09\u00c5" if "#" in str(x) else " # 109.5\u00b0") for x in tab]
             setattr(atoms, name, np.array(new) if isinstance(tab, np.ndarray) else new)
     return atoms
+
+
+FLAVOURS = ["as_built", "int32_terms", "fortran_positions", "read_only_arrays", "int16_types_and_terms"]
+
+
+def flavour(atoms, k):
+    """the same structure with its arrays in another flavour numpy hands out: term and type arrays of another integer width,
+    positions in column-major memory order, arrays flagged read-only (as np.load(mmap_mode='r') / np.frombuffer give them).
+    Edits `atoms` in place (attribute assignment, as a user would), returns the flavour's name."""
+    import numpy as np
+    name = FLAVOURS[k % len(FLAVOURS)]
+    terms = ["bonds", "angles", "dihedrals", "impropers"]
+    types = ["bond_types", "angle_types", "dihedral_types", "improper_types"]
+    if name in ("int32_terms", "int16_types_and_terms"):
+        dt = np.int32 if name == "int32_terms" else np.int16
+        for t in terms + types:
+            v = np.asarray(getattr(atoms, t))
+            if v.size and v.max(initial=0) < np.iinfo(dt).max:
+                setattr(atoms, t, v.astype(dt))
+        if name == "int16_types_and_terms" and len(atoms.atom_types):
+            atoms.atom_types = np.asarray(atoms.atom_types).astype(np.int16)
+    elif name == "fortran_positions":
+        atoms.positions = np.asfortranarray(np.asarray(atoms.positions, float))
+        if atoms.cell is not None:
+            atoms.cell = np.asfortranarray(np.asarray(atoms.cell, float))
+    elif name == "read_only_arrays":
+        for t in ["positions", "atom_types", "charges", "groups"] + terms + types:
+            v = getattr(atoms, t)
+            if isinstance(v, np.ndarray):
+                v = v.copy()
+                v.setflags(write=False)
+                setattr(atoms, t, v)
+        if isinstance(atoms.cell, np.ndarray):
+            c = atoms.cell.copy()
+            c.setflags(write=False)
+            atoms.cell = c
+    return name
